@@ -183,8 +183,11 @@ func permitScenario(t int, seed int64, slow bool) ([]map[string]any, error) {
 	defer func() { portalwire.VerifEvent = nil }()
 	sw := netsim.NewSwitch()
 	limit := []int{0, 1, 2, 3, 3}[rng.Intn(5)]
-	flood := slow && (t%7 == 3 || t%7 == 5) // fill the offer queue: needs more slots than the queue holds
-	floodStop := slow && t%7 == 5           // ... and stop the node while requests are still queued
+	flood := t%7 == 3 || t%7 == 5 // fill the offer queue: needs more slots than the queue holds
+	floodStop := t%7 == 5         // ... and stop the node while requests are still queued
+	// without --slow the overflowing flood is stopped too instead of being drained (draining 1400 offers to silent peers
+	// takes the code's request timeout 28 times over): slots lost at the full queue are then still missing after the stop
+	floodFullStop := !slow && t%7 == 3
 	if flood {
 		limit = 1400
 	}
@@ -392,6 +395,7 @@ func permitScenario(t int, seed int64, slow bool) ([]map[string]any, error) {
 	if floodStop {
 		rounds = 60
 	}
+	floodStop = floodStop || floodFullStop
 	if overlapOut {
 		rounds = 8
 	}
